@@ -1,6 +1,7 @@
 package sdf
 
 import (
+	"time"
 	v2 "github.com/deadsy/sdfx/vec/v2"
 	"github.com/deadsy/sdfx/vec/v2i"
 	v3 "github.com/deadsy/sdfx/vec/v3"
@@ -73,4 +74,38 @@ func vc_C10_evaluate_writes2d() {
 	vfTrackWrites(false)
 	vfReach("evaluate2d")
 	vfAssert(n == 0, "Evaluate of a 2-D shape writes only memory allocated inside the call")
+}
+
+// interleavings at lock boundaries: two goroutines evaluate a cached shape at
+// the same point while the cache already holds another point; every unlock is
+// a preemption point (4 scheduling policies). Both must obtain the wrapped
+// shape's own value. Natively the wrapped shape is slow, so that the window
+// between the cache's critical sections is wide.
+type vfSlowCircle struct{}
+
+func (vfSlowCircle) BoundingBox() Box2 { return Box2{v2.Vec{X: -1, Y: -1}, v2.Vec{X: 1, Y: 1}} }
+func (vfSlowCircle) Evaluate(p v2.Vec) float64 {
+	time.Sleep(2 * time.Millisecond)
+	return p.Length() - 1
+}
+
+func vc_C10_cache2d_interleaving() {
+	vfSchedPolicy(vfCase("policy", 4))
+	vfSchedYield(true)
+	c := Cache2D(vfSlowCircle{})
+	q, p := v2.Vec{X: 3, Y: 4}, v2.Vec{X: 0.3, Y: -0.4}
+	c.Evaluate(q)
+	var r [3]float64
+	done := make(chan bool)
+	for i := 0; i < 3; i++ {
+		go func(i int) { r[i] = c.Evaluate(p); done <- true }(i)
+	}
+	for i := 0; i < 3; i++ {
+		<-done
+	}
+	vfReach("interleaving")
+	for i := 0; i < 3; i++ {
+		vfAssert(r[i] == -0.5, "a cached shape evaluated concurrently returns the wrapped shape's own value")
+	}
+	vfAssert(c.Evaluate(q) == 4, "the cache still returns the first point's value")
 }
